@@ -1,6 +1,7 @@
 import ComposeVerif.Ops.Common
 import ComposeVerif.Model.Dotenv
 import ComposeVerif.Spec.Dotenv
+import ComposeVerif.Model.DotenvTrace
 /-! line-protocol ops for C18: `dotenv` (model of `dotenv.UnmarshalWithLookup`) -/
 open Lean
 namespace CV.Ops.C18
@@ -119,5 +120,15 @@ def dotenvSpec : Handler := fun args =>
     | none => Json.mkObj [("bad", "lines")]
   | none => Json.mkObj [("bad", "lines")]
 
-def handlers : List (String × Handler) := handlers1 ++ [("dotenvSpec", dotenvSpec)]
+/-- round 5: the traced model (`parseT`, proved equal to `parse` in its first component): outcome + branch mask -/
+def dotenvT : Handler := fun args =>
+  let src := (getStr args "src").toList
+  let lookup := envOfList (getStrMap args "lookup")
+  let r := CV.Dotenv.parseT src lookup
+  Json.mkObj [("out", outJson r.1), ("br", Json.num (JsonNumber.fromNat r.2))]
+
+/-- the names of the branch bits, so that the harness never has its own copy of the list -/
+def dotenvTags : Handler := fun _ => Json.arr (CV.Dotenv.tagNames.map Json.str).toArray
+
+def handlers : List (String × Handler) := handlers1 ++ [("dotenvSpec", dotenvSpec), ("dotenvT", dotenvT), ("dotenvTags", dotenvTags)]
 end CV.Ops.C18
